@@ -2,9 +2,9 @@ CONSTANTS
   Waiters = {1, 2, 3}
   Start = 14
   Mod = 16
-  Signed = FALSE
+  Signed = TRUE
   MaxOps = 6
-  Defects = {"ResetKeepsEntry"}
+  Defects = {}
 SPECIFICATION Spec
 INVARIANTS OwnResponseOnce TableIsWaiting NoAliasing IdRoundTrip
 CHECK_DEADLOCK FALSE
